@@ -551,6 +551,416 @@ Proof.
       split; [apply Hd'; rewrite E; reflexivity|]. split; [exact Hin'|]. split; [now rewrite Es|].
       cbn. split; reflexivity.
 Qed.
+
+(* ---- round 2 of Part C *)
+Lemma st_deq_io s1 s : st_deq s1 s -> chan_of s1 = chan_of s /\ drained s1 = drained s /\ fblimit s1 = fblimit s /\ graceful s1 = graceful s.
+Proof. intros (a & t & -> & _). cbn. auto. Qed.
+Lemma mark_drained_deq s1 s p c : st_deq s1 s -> st_deq (mark_drained s1 p c) (mark_drained s p c).
+Proof. intros (a & t & -> & H). exists a, t. split; [reflexivity|exact H]. Qed.
+Lemma inputs_rel_deq s1 s inp : st_deq s1 s -> inputs_rel s inp -> inputs_rel s1 inp.
+Proof. intros Hd. destruct (st_deq_io _ _ Hd) as (E1 & E2 & _). unfold inputs_rel. now rewrite E1, E2. Qed.
+
+(* Read, the input is closed (alternative 2 without a value): markInputAsDrained, io / iou return: Prio *)
+Lemma sim_read_closed s cf ph p r proc intr :
+  RC s cf -> pcs s = Read ph p r proc intr -> get (tactic s) p <> 0 -> chan_of s p <> None ->
+  exists cb cf', reachesP cf cb /\ step1 prog cb = Block (RqSelect (readAlts p) (buf p)) /\
+    reachesP (GoConc.resume cb (AnsSel 2 None)) cf' /\ RC (mark_drained s p (Prio ph r proc)) cf'.
+Proof.
+  intros (fr & inp & strat & unc & us & s1 & gl & -> & Hd & Hin & Hst & L) Epc H0 Hch.
+  destruct (st_deq_proj _ _ Hd) as (_ & _ & _ & _ & _ & _ & Ht & _). rewrite <- (Ht p) in H0.
+  apply N.eqb_neq in H0.
+  destruct (st_deq_io _ _ Hd) as (Ec & Edr & _).
+  assert (Hch1 : chan_of s1 p <> None) by (rewrite Ec; exact Hch).
+  destruct (tie_v1_markInputAsDrained g fr inp strat unc us s1 p (Prio ph r proc) (ncalls s) (inputs_rel_deq _ _ _ Hd Hin) Hch1)
+    as (T & Hin1). cbv zeta in T, Hin1.
+  assert (Hin' : inputs_rel (mark_drained s p (Prio ph r proc))
+                   (aset inp p (mk_Input (Input_Channel (aget zero_Input inp p)) true))).
+  { unfold inputs_rel in *. cbn [chan_of drained mark_drained] in *. rewrite Ec, Edr in Hin1. exact Hin1. }
+  rewrite Epc in *. cbn in L. destruct L as (L1 & L2 & L3 & L7).
+  unfold RC. cbn [pcs mark_drained stackC]. unfold stackC, readK, readAlts in *. destruct (buf p) eqn:B.
+  - destruct L7 as (L7 & L8). eexists _, (_, prioLoopK ph).
+    split; [unfold ioLoopK; runblock ltac:(rewrite ?L7, ?aget_get, ?H0; cbn)|].
+    split; [cbn; rewrite L7; reflexivity|]. split.
+    + cbn [GoConc.resume]. runto ltac:(rewrite ?L7, ?T; cbn).
+    + eexists fr, _, strat, unc, us, (mark_drained s1 p (Prio ph r proc)), _. split; [reflexivity|].
+      split; [apply mark_drained_deq; exact Hd|]. split; [exact Hin'|]. split; [exact Hst|]. cbn.
+      repeat split; try assumption. rewrite u_add_small by lia. lia.
+  - destruct L7 as (L7 & L8 & L9). eexists _, (_, prioLoopK ph).
+    split; [unfold iouLoopK; runblock ltac:(rewrite ?L7, ?aget_get, ?H0; cbn)|].
+    split; [cbn; rewrite L7; reflexivity|]. split.
+    + cbn [GoConc.resume]. runto ltac:(rewrite ?L7, ?T; cbn).
+    + eexists fr, _, strat, unc, us, (mark_drained s1 p (Prio ph r proc)), _. split; [reflexivity|].
+      split; [apply mark_drained_deq; exact Hd|]. split; [exact Hin'|]. split; [exact Hst|]. cbn.
+      repeat split; try assumption. rewrite u_add_small by lia. lia.
+Qed.
+
+(* Read of an unbuffered input, the tick of the interrupter (alternative 3): the second tick in a row ends iou (Prio),
+   the first one is remembered: the step of Prio1.env_step Tick *)
+Lemma sim_read_tick s cf ph p r proc intr :
+  RC s cf -> pcs s = Read ph p r proc intr -> get (tactic s) p <> 0 -> buf p = false ->
+  exists cb cf', reachesP cf cb /\ step1 prog cb = Block (RqSelect (readAlts p) false) /\
+    reachesP (GoConc.resume cb (AnsSel 3 None)) cf' /\
+    RC (with_pc s (if intr then Prio ph r proc else Read ph p r proc true)) cf'.
+Proof.
+  intros (fr & inp & strat & unc & us & s1 & gl & -> & Hd & Hin & Hst & L) Epc H0 B.
+  destruct (st_deq_proj _ _ Hd) as (_ & _ & _ & _ & _ & _ & Ht & _). rewrite <- (Ht p) in H0.
+  apply N.eqb_neq in H0.
+  rewrite Epc in *. cbn in L. destruct L as (L1 & L2 & L3 & L7).
+  unfold RC. cbn [pcs with_pc stackC]. unfold stackC, readK, readAlts in *. rewrite B in *.
+  destruct L7 as (L7 & L8 & L9). destruct intr.
+  - eexists _, (_, prioLoopK ph).
+    split; [unfold iouLoopK; runblock ltac:(rewrite ?L7, ?aget_get, ?H0; cbn)|].
+    split; [cbn; rewrite L7; reflexivity|]. split.
+    + cbn [GoConc.resume]. runto ltac:(rewrite ?L8; cbn).
+    + eexists fr, inp, strat, unc, us, (with_pc s1 (Prio ph r proc)), _. split; [reflexivity|].
+      split; [apply with_pc_deq; exact Hd|]. split; [exact Hin|]. split; [exact Hst|]. cbn.
+      repeat split; try assumption. rewrite u_add_small by lia. lia.
+  - cbn [stackC]. unfold readK. rewrite B. eexists _, (_, iouLoopK ph).
+    split; [unfold iouLoopK; runblock ltac:(rewrite ?L7, ?aget_get, ?H0; cbn)|].
+    split; [cbn; rewrite L7; reflexivity|]. split.
+    + cbn [GoConc.resume]. unfold iouLoopK. runto ltac:(rewrite ?L8; cbn).
+    + eexists fr, inp, strat, unc, us, (with_pc s1 (Read ph p r proc true)), _. split; [reflexivity|].
+      split; [apply with_pc_deq; exact Hd|]. split; [exact Hin|]. split; [exact Hst|]. cbn. rewrite B.
+      repeat split; assumption.
+Qed.
+
+(* Prio with a priority: a drained input is skipped (continue), otherwise io / iou start: Read *)
+Lemma sim_prio_cons s cf ph p r proc :
+  RC s cf -> pcs s = Prio ph (p :: r) proc -> chan_of s p <> None ->
+  exists cf', reachesP cf cf' /\ RC (with_pc s (if drained s p then Prio ph r proc else Read ph p r proc false)) cf'.
+Proof.
+  intros (fr & inp & strat & unc & us & s1 & gl & -> & Hd & Hin & Hst & L) Epc Hch.
+  assert (HD : Input_Drained (aget zero_Input inp p) = drained s p).
+  { destruct Hin as (_ & Hp). destruct (Hp p) as (Hp1 & Hp2). apply Hp2, Hp1, Hch. }
+  rewrite Epc in *. cbn in L. destruct L as (L1 & L2 & L3).
+  unfold RC. cbn [pcs with_pc]. destruct (drained s p) eqn:D.
+  - eexists (_, prioLoopK ph). split.
+    + unfold stackC, prioLoopK. step ltac:(rewrite ?L1; cbn). runto ltac:(rewrite ?L1; cbn; rewrite ?HD; cbn).
+    + eexists fr, inp, strat, unc, us, (with_pc s1 (Prio ph r proc)), _. split; [reflexivity|].
+      split; [apply with_pc_deq; exact Hd|]. split; [exact Hin|]. split; [exact Hst|]. cbn. rewrite ?L1. cbn.
+      repeat split; try assumption; try reflexivity.
+  - cbn [stackC]. unfold readK. destruct (buf p) eqn:B.
+    + eexists (_, ioLoopK ph). split.
+      * unfold stackC, prioLoopK, ioLoopK. step ltac:(rewrite ?L1; cbn). runto ltac:(rewrite ?L1; cbn; rewrite ?HD, ?B; cbn).
+      * eexists fr, inp, strat, unc, us, (with_pc s1 (Read ph p r proc false)), _. split; [reflexivity|].
+        split; [apply with_pc_deq; exact Hd|]. split; [exact Hin|]. split; [exact Hst|]. cbn. rewrite ?L1, ?B. cbn. rewrite ?B.
+        repeat split; try assumption; try reflexivity. rewrite N.add_0_r. assumption.
+    + eexists (_, iouLoopK ph). split.
+      * unfold stackC, prioLoopK, iouLoopK. step ltac:(rewrite ?L1; cbn). runto ltac:(rewrite ?L1; cbn; rewrite ?HD, ?B; cbn).
+      * eexists fr, inp, strat, unc, us, (with_pc s1 (Read ph p r proc false)), _. split; [reflexivity|].
+        split; [apply with_pc_deq; exact Hd|]. split; [exact Hin|]. split; [exact Hst|]. cbn. rewrite ?L1, ?B. cbn. rewrite ?B.
+        repeat split; try assumption; try reflexivity. rewrite N.add_0_r. assumption.
+Qed.
+
+(* ---- EndBase: loop() after base() *)
+Ltac rc_with_pc fr inp strat unc us s1 c Hd Hin Hst :=
+  eexists fr, inp, strat, unc, us, (with_pc s1 c), _; split; [reflexivity|];
+  split; [apply with_pc_deq; exact Hd|]; split; [exact Hin|]; split; [exact Hst|]; cbn.
+
+(* something was processed: getLimitedFeedback() starts *)
+Lemma sim_endbase_limfb s cf proc :
+  RC s cf -> pcs s = EndBase proc -> proc <> 0 -> N.of_nat (fblimit s) < u_modulus ->
+  exists cf', reachesP cf cf' /\ RC (with_pc s (LimFb (fblimit s))) cf'.
+Proof.
+  intros (fr & inp & strat & unc & us & s1 & gl & -> & Hd & Hin & Hst & L) Epc Hp Hl.
+  destruct (st_deq_io _ _ Hd) as (_ & _ & Ef & _). apply N.eqb_neq in Hp.
+  rewrite Epc in *. cbn in L. destruct L as (L1 & L2).
+  eexists (_, stackC (LimFb (fblimit s))). split.
+  - unfold stackC, loopK. runto ltac:(rewrite ?L1, ?L2, ?Hp; cbn).
+  - rc_with_pc fr inp strat unc us s1 (LimFb (fblimit s)) Hd Hin Hst. rewrite Ef. split; [reflexivity|exact Hl].
+Qed.
+
+(* nothing was processed, graceful stop not requested (the default of the select): the sleep of loop(): Idle *)
+Lemma sim_endbase_idle s cf :
+  RC s cf -> pcs s = EndBase 0 ->
+  exists cb cf', reachesP cf cb /\ step1 prog cb = Block (RqSelect [(CGracefulIsBreaked, None)] true) /\
+    reachesP (GoConc.resume cb AnsDefault) cf' /\ RC (with_pc s Idle) cf'.
+Proof.
+  intros (fr & inp & strat & unc & us & s1 & gl & -> & Hd & Hin & Hst & L) Epc.
+  rewrite Epc in *. cbn in L. destruct L as (L1 & L2).
+  eexists _, (_, stackC Idle). split; [unfold stackC, loopK; runblock ltac:(rewrite ?L1, ?L2; cbn)|].
+  split; [reflexivity|]. split.
+  - cbn [GoConc.resume]. unfold stackC, loopK. runto idtac.
+  - rc_with_pc fr inp strat unc us s1 Idle Hd Hin Hst. exact Logic.I.
+Qed.
+
+(* nothing was processed, graceful stop requested (alternative 0): isDrainedInputs decides between the end of loop()
+   (the deferred waitZeroActual: Drain None) and the sleep (Idle) *)
+Lemma sim_endbase_graceful s cf :
+  RC s cf -> pcs s = EndBase 0 -> (forall p, In p (prios s) <-> chan_of s p <> None) ->
+  exists cb cf', reachesP cf cb /\ step1 prog cb = Block (RqSelect [(CGracefulIsBreaked, None)] true) /\
+    reachesP (GoConc.resume cb (AnsSel 0 None)) cf' /\
+    RC (with_pc s (if forallb (drained s) (prios s) then Drain None else Idle)) cf'.
+Proof.
+  intros (fr & inp & strat & unc & us & s1 & gl & -> & Hd & Hin & Hst & L) Epc Hpr.
+  destruct (st_deq_io _ _ Hd) as (Ec & Edr & _). destruct (st_deq_proj _ _ Hd) as (_ & EP & _).
+  assert (T : gen_isDrainedInputs (ncalls s) (absd fr g (Some inp) strat unc us s1) =
+              (ncalls s, absd fr g (Some inp) strat unc us s1, forallb (drained s) (prios s))).
+  { rewrite <- Edr, <- EP. apply tie_v1_isDrainedInputs; [exact (inputs_rel_deq _ _ _ Hd Hin)|].
+    intros p. rewrite EP, Ec. apply Hpr. }
+  rewrite Epc in *. cbn in L. destruct L as (L1 & L2).
+  unfold RC. cbn [pcs with_pc]. destruct (forallb (drained s) (prios s)) eqn:D.
+  - eexists _, (_, stackC (Drain None)). split; [unfold stackC, loopK; runblock ltac:(rewrite ?L1, ?L2; cbn)|].
+    split; [reflexivity|]. split.
+    + cbn [GoConc.resume]. unfold stackC, loopK, mainK. runto ltac:(rewrite ?T; cbn).
+    + rc_with_pc fr inp strat unc us s1 (Drain None) Hd Hin Hst. exact Logic.I.
+  - eexists _, (_, stackC Idle). split; [unfold stackC, loopK; runblock ltac:(rewrite ?L1, ?L2; cbn)|].
+    split; [reflexivity|]. split.
+    + cbn [GoConc.resume]. unfold stackC, loopK. runto ltac:(rewrite ?T; cbn).
+    + rc_with_pc fr inp strat unc us s1 Idle Hd Hin Hst. exact Logic.I.
+Qed.
+
+(* ---- Idle / LimFb under RC *)
+Lemma simc_idle s cf :
+  RC s cf -> pcs s = Idle -> N.of_nat (fblimit s) < u_modulus ->
+  exists cf', reachesP (GoConc.resume cf AnsOk) cf' /\ RC (with_pc s (LimFb (fblimit s))) cf'.
+Proof.
+  intros (fr & inp & strat & unc & us & s1 & gl & -> & Hd & Hin & Hst & L) Epc Hl.
+  destruct (st_deq_io _ _ Hd) as (_ & _ & Ef & _). rewrite Epc.
+  eexists (_, stackC (LimFb (fblimit s))). split.
+  - unfold stackC. cbn [GoConc.resume ifZero if_then loopW wbody at_ nth body_loop skipn]. runto idtac.
+  - rc_with_pc fr inp strat unc us s1 (LimFb (fblimit s)) Hd Hin Hst. rewrite Ef. split; [reflexivity|exact Hl].
+Qed.
+
+Lemma simc_limfb_zero s cf :
+  RC s cf -> pcs s = LimFb 0 ->
+  exists cf', reachesP cf cf' /\ RC (with_pc s Top) cf'.
+Proof.
+  intros (fr & inp & strat & unc & us & s1 & gl & -> & Hd & Hin & Hst & L) Epc.
+  rewrite Epc in *. cbn in L. destruct L as (L1 & L2). rewrite N.add_0_r in L1.
+  eexists (_, stackC Top). split.
+  - unfold stackC. runto ltac:(rewrite ?L1, ?N.ltb_irrefl).
+  - rc_with_pc fr inp strat unc us s1 Top Hd Hin Hst. exact Logic.I.
+Qed.
+
+Lemma simc_limfb_end s cf k a :
+  RC s cf -> pcs s = LimFb (S k) -> a = AnsSel 0 None \/ a = AnsSel 1 None \/ a = AnsDefault ->
+  exists cb cf', reachesP cf cb /\ step1 prog cb = Block (RqSelect fbAlts true) /\
+    reachesP (GoConc.resume cb a) cf' /\ RC (with_pc s Top) cf'.
+Proof.
+  intros (fr & inp & strat & unc & us & s1 & gl & -> & Hd & Hin & Hst & L) Epc Ha.
+  rewrite Epc in *. cbn in L. destruct L as (L1 & L2).
+  assert (Hlt : (G_getLimitedFeedback_i1 gl <? G_getLimitedFeedback_n2 gl) = true) by (apply N.ltb_lt; lia).
+  eexists (_, KSeq (skipn 1 (wbody glfW)) :: stackC (LimFb 0)), (_, stackC Top). split; [|split; [|split]].
+  - unfold stackC. step ltac:(rewrite ?Hlt). step idtac. apply r_refl.
+  - reflexivity.
+  - unfold stackC. destruct Ha as [-> | [-> | ->]];
+      cbn [GoConc.resume glfW wbody at_ nth body_getLimitedFeedback skipn nth_error]; runto idtac.
+  - rc_with_pc fr inp strat unc us s1 Top Hd Hin Hst. exact Logic.I.
+Qed.
+
+(* LimFb (S k), a feedback answer (alternative 2): decreaseActual, the next round of the loop: LimFb k *)
+Lemma simc_limfb_fb s cf k p q :
+  RC s cf -> pcs s = LimFb (S k) -> fbq s = p :: q -> 1 <= get (actual s) p -> get (actual s) p < u_modulus ->
+  exists cb cf', reachesP cf cb /\ step1 prog cb = Block (RqSelect fbAlts true) /\
+    reachesP (GoConc.resume cb (AnsSel 2 (Some (PN p)))) cf' /\ RC (pop_fb s p q (LimFb k)) cf'.
+Proof.
+  intros (fr & inp & strat & unc & us & s1 & gl & -> & Hd & Hin & Hst & L) Epc Efb H1 H2.
+  destruct (st_deq_proj _ _ Hd) as (_ & _ & _ & _ & _ & Ha & _). rewrite <- (Ha p) in H1, H2.
+  pose proof (tie_v1_decreaseActual g fr (Some inp) strat unc us s1 p q (LimFb k) (ncalls s) H1 H2) as T.
+  rewrite Epc in *. cbn in L. destruct L as (L1 & L2).
+  assert (Hlt : (G_getLimitedFeedback_i1 gl <? G_getLimitedFeedback_n2 gl) = true) by (apply N.ltb_lt; lia).
+  eexists (_, KSeq (skipn 1 (wbody glfW)) :: stackC (LimFb 0)), (_, stackC (LimFb k)). split; [|split; [|split]].
+  - unfold stackC. step ltac:(rewrite ?Hlt). step idtac. apply r_refl.
+  - reflexivity.
+  - unfold stackC. cbn [GoConc.resume glfW wbody at_ nth body_getLimitedFeedback skipn nth_error].
+    step idtac. runto ltac:(rewrite ?T; cbn).
+  - eexists fr, inp, strat, unc, us, _, _. split; [reflexivity|]. split; [apply pop_fb_deq; exact Hd|].
+    split; [exact Hin|]. split; [exact Hst|]. cbn. rewrite u_add_small by lia. split; [lia|exact L2].
+Qed.
+
+(* ---- Drain: the deferred waitZeroActual() *)
+Definition RCat (k : list frameT) (s : st) (cf : cfgT) : Prop :=
+  exists fr inp strat unc us s1 gl,
+    cf = ((absd fr g (Some inp) strat unc us s1, gl, ncalls s), k) /\
+    st_deq s1 s /\ inputs_rel s inp /\ mitems strat = strategic s.
+
+Lemma zero_actual_tie fr inp strat unc us s1 s :
+  st_deq s1 s -> NoDup (keys (actual s)) ->
+  gen_isZeroActual (ncalls s) (absd fr g (Some inp) strat unc us s1) =
+  (ncalls s, absd fr g (Some inp) strat unc us s1, sum (actual s) =? 0).
+Proof.
+  intros Hd N1. destruct (st_deq_proj _ _ Hd) as (_ & _ & _ & _ & _ & Ha & _ & Na & _).
+  rewrite tie_v1_isZeroActual. now rewrite (sum_deq _ _ Na N1 Ha).
+Qed.
+
+(* nothing is outstanding: waitZeroActual() and loop() return; main() is at `err := dsc.loop()` done (continuation mainK).
+   The rest of main() (the send of the error, the deferred closes) is not covered. *)
+Lemma sim_drain_end s cf e :
+  RC s cf -> pcs s = Drain e -> NoDup (keys (actual s)) -> sum (actual s) = 0 ->
+  exists cf', reachesP cf cf' /\ RCat mainK (with_pc s (Done e)) cf'.
+Proof.
+  intros (fr & inp & strat & unc & us & s1 & gl & -> & Hd & Hin & Hst & L) Epc N1 Hz.
+  pose proof (zero_actual_tie fr inp strat unc us s1 s Hd N1) as T. rewrite Hz in T. cbn in T.
+  rewrite Epc in *.
+  eexists (_, mainK). split.
+  - unfold stackC. runto ltac:(rewrite ?T; cbn).
+  - eexists fr, inp, strat, unc, us, (with_pc s1 (Done e)), _. split; [reflexivity|].
+    split; [apply with_pc_deq; exact Hd|]. split; [exact Hin|exact Hst].
+Qed.
+
+Lemma sim_drain_stop s cf e i :
+  RC s cf -> pcs s = Drain e -> NoDup (keys (actual s)) -> sum (actual s) <> 0 -> i = 0%nat \/ i = 1%nat ->
+  exists cb cf', reachesP cf cb /\ step1 prog cb = Block (RqSelect fbAlts false) /\
+    reachesP (GoConc.resume cb (AnsSel i None)) cf' /\ RCat mainK (with_pc s (Done e)) cf'.
+Proof.
+  intros (fr & inp & strat & unc & us & s1 & gl & -> & Hd & Hin & Hst & L) Epc N1 Hz Hi.
+  pose proof (zero_actual_tie fr inp strat unc us s1 s Hd N1) as T. apply N.eqb_neq in Hz. rewrite Hz in T.
+  rewrite Epc in *.
+  eexists _, (_, mainK). split; [unfold stackC; runblock ltac:(rewrite ?T; cbn)|]. split; [reflexivity|]. split.
+  - cbn [GoConc.resume]. destruct Hi as [-> | ->]; runto idtac.
+  - eexists fr, inp, strat, unc, us, (with_pc s1 (Done e)), _. split; [reflexivity|].
+    split; [apply with_pc_deq; exact Hd|]. split; [exact Hin|exact Hst].
+Qed.
+
+Lemma sim_drain_fb s cf e p q :
+  RC s cf -> pcs s = Drain e -> NoDup (keys (actual s)) -> sum (actual s) <> 0 ->
+  fbq s = p :: q -> 1 <= get (actual s) p -> get (actual s) p < u_modulus ->
+  exists cb cf', reachesP cf cb /\ step1 prog cb = Block (RqSelect fbAlts false) /\
+    reachesP (GoConc.resume cb (AnsSel 2 (Some (PN p)))) cf' /\ RC (pop_fb s p q (Drain e)) cf'.
+Proof.
+  intros (fr & inp & strat & unc & us & s1 & gl & -> & Hd & Hin & Hst & L) Epc N1 Hz Efb H1 H2.
+  pose proof (zero_actual_tie fr inp strat unc us s1 s Hd N1) as T. apply N.eqb_neq in Hz. rewrite Hz in T.
+  destruct (st_deq_proj _ _ Hd) as (_ & _ & _ & _ & _ & Ha & _). rewrite <- (Ha p) in H1, H2.
+  pose proof (tie_v1_decreaseActual g fr (Some inp) strat unc us s1 p q (Drain e) (ncalls s) H1 H2) as T2.
+  rewrite Epc in *.
+  eexists _, (_, stackC (Drain e)). split; [unfold stackC; runblock ltac:(rewrite ?T; cbn)|]. split; [reflexivity|]. split.
+  - cbn [GoConc.resume]. unfold stackC. runto ltac:(rewrite ?T2; cbn).
+  - eexists fr, inp, strat, unc, us, _, _. split; [reflexivity|]. split; [apply pop_fb_deq; exact Hd|].
+    split; [exact Hin|]. split; [exact Hst|exact Logic.I].
+Qed.
+
+(* ---- Calc, the exit with ErrQuantityExceeded: the error travels up to loop(), the deferred waitZeroActual: Drain.
+   (The exits with a divider error are open: GenTiePrio1Calc does not relate the states after a failed divider call.) *)
+Lemma sim_calc_err s cf :
+  RC s cf -> pcs s = Calc ->
+  NoDup (keys (actual s)) -> NoDup (keys (tactic s)) ->
+  sum (actual s) < u_modulus -> Prio1.H s < u_modulus -> sum_list (map (get (strategic s)) (prios s)) < u_modulus ->
+  pcs (step_calc dv s) = Drain (Some EQuantityExceeded) ->
+  exists cf', reachesP cf cf' /\ RC (step_calc dv s) cf'.
+Proof.
+  intros (fr & inp & strat & unc & us & s1 & gl & -> & Hd & Hin & Hst & L) Epc N1 N2 Hsa Hh Hb E.
+  destruct (tie_v1_calcTactic_sim dv g Hok dv_wf dv_ext fr (Some inp) strat unc us s1 s Hd N1 N2 Hst Hsa Hh Hb) as (s1' & unc' & T & Hd').
+  cbn zeta in T. destruct (step_calc_frame s) as (Ep & Ec & Edr & Es & _).
+  assert (Hin' : inputs_rel (step_calc dv s) inp) by (unfold inputs_rel in *; rewrite Ec, Edr; exact Hin).
+  rewrite Epc in *. cbn in L.
+  eexists (_, stackC (Drain (Some EQuantityExceeded))). split.
+  - unfold stackC, wctLoopK. eapply r_step; [cbn; reflexivity|]. runto ltac:(rewrite ?T, ?E; cbn).
+  - eexists fr, inp, strat, unc', us, s1', _. rewrite E. split; [reflexivity|].
+    split; [apply Hd'; rewrite E; reflexivity|]. split; [exact Hin'|]. split; [now rewrite Es|exact Logic.I].
+Qed.
+
+(* ---- Top: the select of loop() *)
+Definition topAlts : list (chan_id * option payload) :=
+  stopAlts ++ [(CInputAdds, None); (CInputRmvs, None); (CFeedback, None)].
+
+Lemma with_actual_deq s1 s a' c :
+  st_deq s1 s -> deq a' (actual s1) -> NoDup (keys a') -> st_deq (with_pc (with_actual s1 a') c) (with_pc s c).
+Proof.
+  intros (a & t & -> & Ha & Ht & Na & Nt) Ha' Na'. exists a', t. split; [reflexivity|].
+  split; [eapply deq_trans; [exact Ha'|exact Ha]|]. split; [exact Ht|]. split; [exact Na'|exact Nt].
+Qed.
+Lemma inputs_rel_deq' s1 s inp : st_deq s1 s -> inputs_rel s1 inp -> inputs_rel s inp.
+Proof. intros Hd. destruct (st_deq_io _ _ Hd) as (E1 & E2 & _). unfold inputs_rel. now rewrite E1, E2. Qed.
+
+(* after the select: clearActual, base() begins, waitCalcTactic() begins: Calc *)
+Lemma top_tail fr inp strat unc us s1 s gl :
+  st_deq s1 s -> inputs_rel s inp -> mitems strat = strategic s ->
+  exists cf', reachesP ((absd fr g (Some inp) strat unc us s1, gl, ncalls s), loopK (skipn 1 (wbody loopW))) cf' /\
+              RC (with_pc s Calc) cf'.
+Proof.
+  intros Hd Hin Hst. destruct (st_deq_proj _ _ Hd) as (_ & _ & _ & _ & _ & _ & _ & Na & _).
+  destruct (tie_v1_clearActual g fr (Some inp) strat unc us s1 (ncalls s) Na) as (T & Ha' & Na' & _). cbv zeta in T.
+  eexists (_, stackC Calc). split.
+  - unfold stackC, loopK. runto ltac:(rewrite ?T; cbn).
+  - eexists fr, inp, strat, unc, us, (with_pc (with_actual s1 _) Calc), _. split; [reflexivity|].
+    split; [apply with_actual_deq; [exact Hd|exact Ha'|exact Na']|]. split; [exact Hin|]. split; [exact Hst|]. reflexivity.
+Qed.
+
+(* the default: nothing to do before the round *)
+Lemma sim_top_default s cf :
+  RC s cf -> pcs s = Top ->
+  exists cb cf', reachesP cf cb /\ step1 prog cb = Block (RqSelect topAlts true) /\
+    reachesP (GoConc.resume cb AnsDefault) cf' /\ RC (with_pc s Calc) cf'.
+Proof.
+  intros (fr & inp & strat & unc & us & s1 & gl & -> & Hd & Hin & Hst & L) Epc. rewrite Epc in *.
+  destruct (top_tail fr inp strat unc us s1 s gl Hd Hin Hst) as (cf' & Hr & HR).
+  eexists _, cf'. split; [unfold stackC, loopK; runblock idtac|]. split; [reflexivity|]. split; [|exact HR].
+  cbn [GoConc.resume]. eapply reaches_trans; [|exact Hr]. unfold loopK. runto idtac.
+Qed.
+
+(* a stop answer: loop() returns nil, the deferred waitZeroActual: Drain None *)
+Lemma sim_top_stop s cf i :
+  RC s cf -> pcs s = Top -> i = 0%nat \/ i = 1%nat ->
+  exists cb cf', reachesP cf cb /\ step1 prog cb = Block (RqSelect topAlts true) /\
+    reachesP (GoConc.resume cb (AnsSel i None)) cf' /\ RC (with_pc s (Drain None)) cf'.
+Proof.
+  intros (fr & inp & strat & unc & us & s1 & gl & -> & Hd & Hin & Hst & L) Epc Hi. rewrite Epc in *.
+  eexists _, (_, stackC (Drain None)). split; [unfold stackC, loopK; runblock idtac|]. split; [reflexivity|]. split.
+  - cbn [GoConc.resume]. unfold stackC, loopK, mainK. destruct Hi as [-> | ->]; runto idtac.
+  - eexists fr, inp, strat, unc, us, (with_pc s1 (Drain None)), _. split; [reflexivity|].
+    split; [apply with_pc_deq; exact Hd|]. split; [exact Hin|]. split; [exact Hst|exact Logic.I].
+Qed.
+
+(* a feedback answer (alternative 4): decreaseActual, then the round: Calc *)
+Lemma sim_top_fb s cf p q :
+  RC s cf -> pcs s = Top -> fbq s = p :: q -> 1 <= get (actual s) p -> get (actual s) p < u_modulus ->
+  exists cb cf', reachesP cf cb /\ step1 prog cb = Block (RqSelect topAlts true) /\
+    reachesP (GoConc.resume cb (AnsSel 4 (Some (PN p)))) cf' /\ RC (pop_fb s p q Calc) cf'.
+Proof.
+  intros (fr & inp & strat & unc & us & s1 & gl & -> & Hd & Hin & Hst & L) Epc Efb H1 H2. rewrite Epc in *.
+  destruct (st_deq_proj _ _ Hd) as (_ & _ & _ & _ & _ & Ha & _). rewrite <- (Ha p) in H1, H2.
+  pose proof (tie_v1_decreaseActual g fr (Some inp) strat unc us s1 p q Calc (ncalls s) H1 H2) as T.
+  destruct (top_tail fr inp strat unc us (pop_fb s1 p q Calc) (pop_fb s p q Calc)
+              (snd (fst (set_loop_priority_1 p (absd fr g (Some inp) strat unc us s1, gl, ncalls s))))
+              (pop_fb_deq _ _ p q Calc Hd) Hin Hst) as (cf' & Hr & HR).
+  eexists _, cf'. split; [unfold stackC, loopK; runblock idtac|]. split; [reflexivity|]. split; [|exact HR].
+  cbn [GoConc.resume]. eapply reaches_trans; [|exact Hr]. unfold loopK. runto ltac:(rewrite ?T; cbn).
+Qed.
+
+(* an AddInput command (alternative 2): addInput, then the round: the model's do_cmd (CAdd ch p) *)
+Lemma sim_top_add s cf ia ch rest :
+  RC s cf -> pcs s = Top ->
+  (forall q, In q (prios s) <-> chan_of s q <> None) -> desc (prios s) ->
+  exists cb cf', reachesP cf cb /\ step1 prog cb = Block (RqSelect topAlts true) /\
+    reachesP (GoConc.resume cb (AnsSel 2 (Some (PinputAdd ia)))) cf' /\
+    RC (do_cmd dv s (CAdd ch (inputAdd_priority ia)) rest) cf'.
+Proof.
+  intros (fr & inp & strat & unc & us & s1 & gl & -> & Hd & Hin & Hst & L) Epc Hpr Hds. rewrite Epc in *.
+  destruct (st_deq_proj _ _ Hd) as (_ & EP & _ & EN & _). destruct (st_deq_io _ _ Hd) as (Ec & _).
+  pose proof (do_cmd_deq dv _ _ (CAdd ch (inputAdd_priority ia)) rest Hd) as Hd'.
+  destruct (st_deq_proj _ _ Hd') as (_ & _ & ES' & EN' & _).
+  destruct (tie_v1_addInput dv g Hok fr inp strat unc us s1 (inputAdd_channel ia) ch (inputAdd_priority ia) rest
+              (inputs_rel_deq _ _ _ Hd Hin)) as (T & Hin1 & Hst1).
+  { intros q. rewrite EP, Ec. apply Hpr. } { rewrite EP. exact Hds. }
+  cbv zeta in T, Hin1, Hst1. rewrite EN, EN' in T. rewrite ?EN in Hst1. rewrite ES' in Hst1.
+  edestruct (top_tail fr _ _ unc us _ _
+              (snd (fst (set_loop_add ia (absd fr g (Some inp) strat unc us s1, gl, ncalls s))))
+              Hd' (inputs_rel_deq' _ _ _ Hd' Hin1) Hst1) as (cf' & Hr & HR).
+  eexists _, cf'. split; [unfold stackC, loopK; runblock idtac|]. split; [reflexivity|]. split; [|exact HR].
+  cbn [GoConc.resume]. eapply reaches_trans; [|exact Hr]. unfold loopK. runto ltac:(rewrite ?T; cbn).
+Qed.
+
+(* a RemoveInput command (alternative 3): removeInput, then the round: the model's do_cmd (CRmv p) *)
+Lemma sim_top_rmv s cf p rest :
+  RC s cf -> pcs s = Top -> (Z.of_nat (length (prios s)) < i_half)%Z ->
+  exists cb cf', reachesP cf cb /\ step1 prog cb = Block (RqSelect topAlts true) /\
+    reachesP (GoConc.resume cb (AnsSel 3 (Some (PN p)))) cf' /\ RC (do_cmd dv s (CRmv p) rest) cf'.
+Proof.
+  intros (fr & inp & strat & unc & us & s1 & gl & -> & Hd & Hin & Hst & L) Epc Hlen. rewrite Epc in *.
+  destruct (st_deq_proj _ _ Hd) as (_ & EP & _ & EN & _).
+  pose proof (do_cmd_deq dv _ _ (CRmv p) rest Hd) as Hd'.
+  destruct (st_deq_proj _ _ Hd') as (_ & _ & ES' & EN' & _).
+  destruct (tie_v1_removeInput dv g Hok fr inp strat unc us s1 p rest (inputs_rel_deq _ _ _ Hd Hin))
+    as (T & Hin1 & Hst1 & _).
+  { rewrite EP. exact Hlen. }
+  cbv zeta in T, Hin1, Hst1. rewrite EN, EN' in T. rewrite ?EN in Hst1. rewrite ES' in Hst1.
+  edestruct (top_tail fr _ _ unc us _ _
+              (snd (fst (set_loop_priority p (absd fr g (Some inp) strat unc us s1, gl, ncalls s))))
+              Hd' (inputs_rel_deq' _ _ _ Hd' Hin1) Hst1) as (cf' & Hr & HR).
+  eexists _, cf'. split; [unfold stackC, loopK; runblock idtac|]. split; [reflexivity|]. split; [|exact HR].
+  cbn [GoConc.resume]. eapply reaches_trans; [|exact Hr]. unfold loopK. runto ltac:(rewrite ?T; cbn).
+Qed.
 End Full.
 
 Print Assumptions blocked_top.
@@ -569,3 +979,22 @@ Print Assumptions sim_read_stop.
 Print Assumptions sim_read_item.
 Print Assumptions sim_prio_nil.
 Print Assumptions sim_recalc.
+Print Assumptions sim_read_closed.
+Print Assumptions sim_read_tick.
+Print Assumptions sim_prio_cons.
+Print Assumptions sim_endbase_limfb.
+Print Assumptions sim_endbase_idle.
+Print Assumptions sim_endbase_graceful.
+Print Assumptions simc_idle.
+Print Assumptions simc_limfb_zero.
+Print Assumptions simc_limfb_end.
+Print Assumptions simc_limfb_fb.
+Print Assumptions sim_drain_end.
+Print Assumptions sim_drain_stop.
+Print Assumptions sim_drain_fb.
+Print Assumptions sim_calc_err.
+Print Assumptions sim_top_default.
+Print Assumptions sim_top_stop.
+Print Assumptions sim_top_fb.
+Print Assumptions sim_top_add.
+Print Assumptions sim_top_rmv.
